@@ -520,6 +520,10 @@ impl Scenario {
             let r0 = self.relabel(&s0, 829_999);
             s0 = r0.next_unsealed().seal(None);
         }
+        if s0.verif_inner().verif_network() == NetID::Testnet && h >= 500 {
+            let r0 = self.relabel(&s0, 499);
+            s0 = r0.next_unsealed().seal(None);
+        }
         for k in 0..10 { self.dict.height(h + k); }
         let restored = self.relabel(&s0, h);
         self.mode = Mode::S(restored);
@@ -1819,19 +1823,120 @@ pub fn directed(r: &mut Rng) -> Vec<Scenario> {
     }
     // histories that cross a TIP activation height (every scenario above starts at height 0, far from them)
     for (name, net, h) in [("d_tip_testnet_500", NetID::Testnet, 498u64), ("d_tip901_mainnet", NetID::Mainnet, 42698), ("d_tip902_mainnet", NetID::Mainnet, 179998),
-                           ("d_tip906_mainnet", NetID::Mainnet, 829998), ("d_tip909_mainnet", NetID::Mainnet, 949998), ("d_tip909a_mainnet", NetID::Mainnet, 1047998)] {
+                           ("d_tip906_mainnet", NetID::Mainnet, 829995), ("d_tip909_mainnet", NetID::Mainnet, 949998), ("d_tip909a_mainnet", NetID::Mainnet, 1047998)] {
         let mut sc = Scenario::new(name, r, net, 100, 1 << 30);
         sc.fixed_change = Some(sc.at());
         sc.jump_to_height(h);
-        for b in 0..4 {
+        for b in 0..(if h == 829995 { 7 } else { 4 }) {
             sc.op_next();
             let w = sc.wallet();
             if let Some(t) = sc.gen_normal(r, &w, &HashSet::new()) { sc.op_batch(&[t]); }
-            let d = [-128i8, -128, 127, -64][b];
+            let d = [-128i8, -128, 127, -64, 1, 2, 3][b];
             let a = Some(ProposerAction { fee_multiplier_delta: d, reward_dest: sc.at() });
             if sc.op_seal(a) != 0 { break; }
             if b == 2 { sc.op_restart(); }
         }
+        out.push(sc);
+    }
+    // the TIP-906 activation on the testnet with several coins under one covenant hash (the counts are initialised from the coin set)
+    {
+        let mut sc = Scenario::new("d_counts_activation_testnet", r, NetID::Testnet, 100, 1 << 30);
+        sc.fixed_change = Some(sc.at());
+        sc.jump_to_height(497);
+        sc.op_next();
+        let f = sc.fund(r, &[(1 << 40, Denom::Mel), (1 << 40, Denom::Mel), (1 << 40, Denom::Mel), (1 << 30, Denom::Sym), (1 << 30, Denom::Sym)]);
+        sc.op_batch(&[f]);
+        for b in 0..4 {
+            let a = Some(ProposerAction { fee_multiplier_delta: 0, reward_dest: sc.at() });
+            if sc.op_seal(a) != 0 { break; }
+            if b == 1 { sc.op_restart(); }
+            sc.op_next();
+            let w = sc.wallet();
+            if let Some(t) = sc.gen_normal(r, &w, &HashSet::new()) { sc.op_batch(&[t]); }
+        }
+        sc.op_seal(None);
+        out.push(sc);
+    }
+    // the end of the legacy deposit rule (heights below 978392 on Mainnet / Testnet keep the second deposit output)
+    {
+        let mut sc = Scenario::new("d_legacy_deposit_boundary", r, NetID::Testnet, 100, 1 << 30);
+        sc.fixed_change = Some(sc.at());
+        sc.jump_to_height(978_389);
+        sc.op_next();
+        let f = sc.fund(r, &[(1 << 50, Denom::Mel), (1 << 50, Denom::Mel), (1 << 50, Denom::Mel), (1 << 50, Denom::Mel), (1 << 40, Denom::Sym), (1 << 40, Denom::Sym), (1 << 40, Denom::Sym), (1 << 40, Denom::Sym)]);
+        sc.op_batch(&[f]);
+        let at = sc.at();
+        for _b in 0..4 {
+            if !sc.block_end(None) { break; }
+            let m = sc.coin_of(Denom::Mel, 1 << 40);
+            let sy = sc.coin_of(Denom::Sym, 1 << 30);
+            if let (Some(m), Some(sy)) = (m, sy) {
+                let t = sc.mk(r, TxKind::LiqDeposit, &[m, sy.clone()], vec![sc.cd(at, 1 << 20, Denom::Mel), sc.cd(at, 1 << 20, Denom::Sym), sc.cd(at, sy.1.coin_data.value.0 - (1 << 20), Denom::Sym)], b"s".to_vec());
+                sc.op_batch(&[t]);
+            }
+        }
+        sc.op_seal(None);
+        out.push(sc);
+    }
+    // the legacy staking rules: registration starts at height 500000, the lock at height 900000 (Mainnet / Testnet)
+    for (name, h0) in [("d_legacy_stake_500000", 499_997u64), ("d_legacy_stake_900000", 899_996u64)] {
+        let mut sc = Scenario::new(name, r, NetID::Testnet, 100, 1 << 30);
+        sc.fixed_change = Some(sc.at());
+        sc.jump_to_height(h0);
+        sc.op_next();
+        let f = sc.fund(r, &[(1 << 50, Denom::Mel), (1 << 50, Denom::Mel), (1 << 50, Denom::Mel), (1 << 50, Denom::Mel), (1 << 40, Denom::Sym), (1 << 40, Denom::Sym), (1 << 40, Denom::Sym), (1 << 40, Denom::Sym)]);
+        sc.op_batch(&[f]);
+        let at = sc.at();
+        let mut staked: Vec<(CoinID, CoinDataHeight)> = vec![];
+        for _b in 0..5 {
+            if !sc.block_end(None) { break; }
+            let height = sc.ustate().verif_height();
+            // spend the output staked in the previous block, then stake again
+            if let Some(st) = staked.pop() {
+                if let Some(m) = sc.coin_of(Denom::Mel, 1 << 40) {
+                    let t = sc.mk(r, TxKind::Normal, &[m, st], vec![sc.cd(at, 1 << 20, Denom::Sym), sc.cd(at, 1 << 30, Denom::Mel)], vec![]);
+                    sc.op_batch(&[t]);
+                }
+            }
+            let m = sc.coin_of(Denom::Mel, 1 << 40);
+            let sy = sc.coin_of(Denom::Sym, 1 << 30);
+            if let (Some(m), Some(sy)) = (m, sy) {
+                let epoch = height.0 / STAKE_EPOCH;
+                let doc = StakeDoc { pubkey: sc.keys.pk[0], e_start: epoch + 1, e_post_end: epoch + 3, syms_staked: CoinValue(1 << 20) };
+                let mut st = Transaction::new(TxKind::Stake);
+                st.outputs = vec![sc.cd(at, 1 << 20, Denom::Sym), sc.cd(at, sy.1.coin_data.value.0 - (1 << 20), Denom::Sym)];
+                st.data = Bytes::from(doc.stdcode());
+                let st = sc.finish_tx(r, st, &[m, sy], 0, 0);
+                if sc.op_batch(&[st.clone()]) == 0 {
+                    staked.push((CoinID::new(st.hash_nosigs(), 0), CoinDataHeight { coin_data: st.outputs[0].clone(), height }));
+                }
+            }
+        }
+        sc.op_seal(None);
+        out.push(sc);
+    }
+    // a consensus proof with one bad signature, at every position of the key order, and one from a key without stake
+    {
+        let mut sc = Scenario::new("d_confirm_bad_signature_positions", r, NetID::Custom02, 1000, 1 << 20);
+        sc.fixed_change = Some(sc.at());
+        let db = Database::new(InMemoryCas::default());
+        let mut stakes = BTreeMap::new();
+        let nk = sc.keys.pk.len();
+        // in the order of the keys (the order in which a ConsensusProof is walked): 10, 10, 1 - the first two alone are a quorum
+        let mut order: Vec<usize> = (0..nk.min(4)).collect();
+        order.sort_by_key(|i| sc.keys.pk[*i].0);
+        for (pos, i) in order.iter().enumerate() { stakes.insert(TxHash(tmelcrypt::hash_single(&[b'q', *i as u8])), StakeDoc { pubkey: sc.keys.pk[*i], e_start: 0, e_post_end: 5, syms_staked: CoinValue(if pos + 1 == order.len() { 1 } else { 10 }) }); }
+        let cfg = GenesisConfig { network: NetID::Custom02, init_coindata: CoinData { covhash: sc.at(), value: CoinValue(1 << 50), denom: Denom::Mel, additional_data: Bytes::new() }, stakes, init_fee_pool: CoinValue(1 << 20), init_fee_multiplier: 1000 };
+        sc.mode = Mode::U(cfg.realize(&db));
+        sc.db = db;
+        let d = sc.dump_now(); sc.init = sc.dump_str(&d);
+        sc.op_seal(None);
+        let n = nk.min(4);
+        let all: Vec<(usize, bool)> = (0..n).map(|i| (i, true)).collect();
+        sc.op_confirm(&all);
+        for bad in 0..n { let v: Vec<(usize, bool)> = (0..n).map(|i| (i, i != bad)).collect(); sc.op_confirm(&v); }
+        for skip in 0..n { let v: Vec<(usize, bool)> = (0..n).filter(|i| *i != skip).map(|i| (i, true)).collect(); sc.op_confirm(&v); }
+        for skip in 0..n { for bad in 0..n { if bad != skip { let v: Vec<(usize, bool)> = (0..n).filter(|i| *i != skip).map(|i| (i, i != bad)).collect(); sc.op_confirm(&v); } } }
         out.push(sc);
     }
     // a staking-epoch boundary with a lapsing stake
